@@ -470,24 +470,7 @@ def fetch_until_data(ck, P, cfg, R="CUT/fetch-until-data"):
     calls = f.live_calls(r"gz::gz_decomp$")
     if not ck.anchor("gz_decomp call in gz_fetch", len(calls) == 1):
         return
-    # the success edge of the `?` that follows the call
-    cur, starts = calls[0].target, []
-    for _ in range(8):
-        t = f.blocks[cur]["t"]
-        if t["k"] == "switch":
-            for lab, tb in f.succ[cur]:
-                if lab is None or lab[0] == "const":
-                    continue
-                for a in f.edge_atoms(cur, lab):
-                    if a[0] == "is" and ((a[3] and set(a[2]) & {"Continue", "Ok"}) or (not a[3] and set(a[2]) <= {"Break", "Err"})):
-                        starts.append(tb)
-            break
-        su = f.succ[cur]
-        if len(su) != 1:
-            break
-        cur = su[0][1]
-    if not ck.anchor("success edge after gz_decomp", bool(starts)):
-        return
+    starts = [calls[0].target]
     tests = set()
     for b in f.live:
         if f.blocks[b]["t"]["k"] != "switch":
@@ -500,7 +483,12 @@ def fetch_until_data(ck, P, cfg, R="CUT/fetch-until-data"):
                 if "have" in g.names and 0 in g.consts:
                     tests.add(b)
     rets = [b for b in f.live if f.blocks[b]["t"]["k"] == "return"]
-    ok = bool(tests) and not flow.reaches_avoiding(f, starts, rets, cut_blocks=tests)
+    # error exits are not at issue: a block that builds the Err result (the `?` residual, or an explicit Err) ends the search
+    errs = {c.bb for c in f.live_calls(r"from_residual$")}
+    for bi, si, lhs, rv, st in f.assignments():
+        if bi in f.live and isinstance(rv, dict) and rv.get("k") == "agg" and rv.get("variant") == "Err" and lhs and lhs.get("l") == 0:
+            errs.add(bi)
+    ok = bool(tests) and not flow.reaches_avoiding(f, starts, rets, cut_blocks=tests | errs)
     ck.decide(ok, R, "gz_fetch:gzip@" + cfg, "no return between a successful gz_decomp and the test of `have`",
               "gz_fetch can return right after gz_decomp without testing whether any output was produced: at a member boundary it reports "
               "success with an empty buffer, which gzgets and the gzgetc macro take for end of file", where(f, calls[0].line))
